@@ -1,6 +1,7 @@
 package midicat
 
 import (
+	"encoding/hex"
 	"fmt"
 	"io"
 )
@@ -24,9 +25,15 @@ func read(rd io.Reader) (byte, error) {
 }
 
 func convert(b []byte) (out []byte, err error) {
-	out = make([]byte, len(b)/2)
+	if len(b) == 0 {
+		return nil, fmt.Errorf("no hex data")
+	}
 
-	_, err = fmt.Sscanf(string(b), "%X", &out)
+	// every character must be a hex digit and the digits must come in pairs:
+	// anything else means the line is damaged and must not result in a (shortened) message
+	out = make([]byte, hex.DecodedLen(len(b)))
+
+	_, err = hex.Decode(out, b)
 	if err != nil {
 		return nil, err
 	}
